@@ -135,15 +135,16 @@ whose correlation id is that of a kept host event. -/
 theorem C12_trim_keeps_exactly (includeLast : Bool) (rows : List Row) (r : Row) :
     r ∈ trimRank includeLast rows ↔
       (r ∈ keptHost includeLast rows) ∨
-      (r ∈ rows ∧ C02.devSide r = true ∧ ∃ h ∈ keptHost includeLast rows, h.corr = r.corr) := by
-  simp only [trimRank, List.mem_append, List.mem_flatMap, List.mem_map, List.mem_filter]
+      (r ∈ rows ∧ C02.devSide r = true ∧ r.corr ≠ -1 ∧ ∃ h ∈ keptHost includeLast rows, h.corr = r.corr) := by
+  simp only [trimRank, List.mem_append, List.mem_filter, Bool.and_eq_true, List.any_eq_true, bne_iff_ne, ne_eq,
+    beq_iff_eq]
   constructor
-  · rintro (⟨d, ⟨hd, hds⟩, _, ⟨hk, hc⟩, rfl⟩ | h)
-    · right; exact ⟨hd, hds, _, hk, by simpa using hc⟩
+  · rintro (⟨⟨hd, hds⟩, hne, h, hk, hc⟩ | h)
+    · right; exact ⟨hd, hds, hne, h, hk, hc⟩
     · left; exact h
-  · rintro (h | ⟨hr, hds, h, hk, hc⟩)
+  · rintro (h | ⟨hr, hds, hne, h, hk, hc⟩)
     · right; exact h
-    · left; exact ⟨r, ⟨hr, hds⟩, h, ⟨hk, by simp [hc]⟩, rfl⟩
+    · left; exact ⟨⟨hr, hds⟩, hne, h, hk, hc⟩
 
 /-- The cut-off rule for host events. -/
 theorem C12_kept_host_rule (includeLast : Bool) (rows : List Row) (r : Row)
@@ -172,12 +173,9 @@ theorem C12_trim_noop_lt2 (includeLast : Bool) (n : Nat) (hn : n < 2) (ranks : L
   have : ¬ n ≥ 2 := by omega
   simp [this]
 
-/-- No event is duplicated by the trimming join (well-formed: unique rows, a correlation id
-names at most one host-side row, device-side rows carry a correlation id). -/
-theorem C12_trim_nodup (includeLast : Bool) (rows : List Row) (hnd : rows.Nodup)
-    (hpair : ∀ a ∈ rows, ∀ b ∈ rows, a.corr = b.corr → a.corr ≠ -1 →
-      C02.devSide a = false → C02.devSide b = false → a = b)
-    (hdev : ∀ d ∈ rows, C02.devSide d = true → d.corr ≠ -1) :
+/-- No event is duplicated by trimming: unique rows stay unique, whatever the correlation ids are
+(two host calls sharing an id, device-side records without one). -/
+theorem C12_trim_nodup (includeLast : Bool) (rows : List Row) (hnd : rows.Nodup) :
     (trimRank includeLast rows).Nodup := by
   have hsubl : (keptHost includeLast rows).Sublist (rows.filter fun r => !C02.devSide r) := by
     simp only [keptHost]
@@ -191,36 +189,13 @@ theorem C12_trim_nodup (includeLast : Bool) (rows : List Row) (hnd : rows.Nodup)
   have hkept_nd : (keptHost includeLast rows).Nodup := hsubl.nodup (hnd.filter _)
   unfold trimRank
   apply List.nodup_append.mpr
-  refine ⟨?_, hkept_nd, ?_⟩
-  · rw [List.Nodup, List.pairwise_flatMap]
-    constructor
-    · intro d hd
-      have hd' := List.mem_filter.mp hd
-      -- at most one kept host row has d's correlation id
-      have hlen : ((keptHost includeLast rows).filter fun h => h.corr == d.corr).length ≤ 1 := by
-        apply length_le_one_of_all_eq (hkept_nd.filter _)
-        intro a ha b hb
-        have ha' := List.mem_filter.mp ha
-        have hb' := List.mem_filter.mp hb
-        have hca : a.corr = d.corr := by simpa using ha'.2
-        have hcb : b.corr = d.corr := by simpa using hb'.2
-        exact hpair a (hkept_sub a ha'.1).1 b (hkept_sub b hb'.1).1 (by rw [hca, hcb])
-          (by rw [hca]; exact hdev d hd'.1 hd'.2) (hkept_sub a ha'.1).2 (hkept_sub b hb'.1).2
-      exact pairwise_of_length_le_one (by simpa using hlen)
-    · have hgpu : (rows.filter C02.devSide).Nodup := hnd.filter _
-      apply hgpu.imp
-      intro a b hab x hx y hy
-      obtain ⟨_, _, rfl⟩ := List.mem_map.mp hx
-      obtain ⟨_, _, rfl⟩ := List.mem_map.mp hy
-      exact hab
-  · intro a ha b hb
-    obtain ⟨d, hd, hmem⟩ := List.mem_flatMap.mp ha
-    obtain ⟨_, _, rfl⟩ := List.mem_map.mp hmem
-    have h1 := (List.mem_filter.mp hd).2
-    have h2 := (hkept_sub b hb).2
-    intro heq
-    rw [heq, h2] at h1
-    cases h1
+  refine ⟨((hnd.filter _).filter _), hkept_nd, ?_⟩
+  intro a ha b hb
+  have h1 := (List.mem_filter.mp (List.mem_filter.mp ha).1).2
+  have h2 := (hkept_sub b hb).2
+  intro heq
+  rw [heq, h2] at h1
+  cases h1
 
 /-- Non-vacuity: two steps; the launch in step 1 and its kernel survive, the operator that
 starts at the beginning of the last step and the partner-less kernel are dropped. -/
